@@ -94,7 +94,7 @@ func (g *pgen) node(depth int) []interface{} {
 			return g.assign()
 		}
 	}
-	k := r.Intn(14)
+	k := r.Intn(15)
 	g.stats[fmt.Sprintf("k%d", k)]++
 	switch k {
 	case 0:
@@ -240,6 +240,29 @@ func (g *pgen) node(depth int) []interface{} {
 			out = append(out, nText("n="), nBuf(eId(i), true))
 		}
 		return out
+	case 13: // nested each loops that REUSE the name of the index / value variable. The reused name is read at the top of the
+		// outer iteration and inside the inner loop only: there flat (this engine) and function-scoped (pug.js) binding agree
+		val, key := g.fresh("v"), g.fresh("i")
+		outer := []J{eId("an"), eDot(eId("o"), "list"), eArr(eNum("7"), eNum("8"), eNum("9"))}[r.Intn(3)]
+		inner := []J{eId("an"), eDot(eId("o"), "list"), eArr(eNum("4"), eNum("5")), eId("empty")}[r.Intn(4)]
+		ival, ikey := g.fresh("v"), key
+		if r.Chance(1, 3) {
+			ival, ikey = val, g.fresh("i") // reuse the VALUE name instead
+		} else if r.Chance(1, 3) {
+			ival = val // reuse both
+		}
+		body := []interface{}{nText("["), nBuf(eId(key), true), nText("="), nBuf(eId(val), true), nText(":")}
+		save := *t
+		t.ints = append(t.ints, val, key)
+		body = append(body, g.block(depth-2)...)
+		*t = save
+		innerBody := []interface{}{nBuf(eId(ikey), true), nText("/"), nBuf(eId(ival), true), nText(",")}
+		save = *t
+		t.ints = append(t.ints, ival, ikey)
+		innerBody = append(innerBody, g.block(depth-2)...)
+		*t = save
+		body = append(body, nEach(ival, ikey, inner, innerBody...), nText("]"))
+		return []interface{}{nEach(val, key, outer, body...)}
 	case 12: // a loop that never ends by itself: the engine must stop it with an error
 		if g.capLeft > 0 && r.Chance(1, 6) {
 			g.capLeft--
